@@ -68,6 +68,8 @@ def strict_eq(a: Any, b: Any) -> bool:
         return a == b and math.copysign(1, a) == math.copysign(1, b)
     if isinstance(a, (list, tuple)):
         return len(a) == len(b) and all(strict_eq(x, y) for x, y in zip(a, b))
+    if dataclasses.is_dataclass(a) and not isinstance(a, type):
+        return all(strict_eq(getattr(a, f.name), getattr(b, f.name)) for f in dataclasses.fields(a))  # every field, compare=False too
     if isinstance(a, dict):
         return list(a.keys()) == list(b.keys()) and all(strict_eq(a[k], b[k]) for k in a) \
             if set(a) == set(b) and len(a) == len(b) and all(strict_eq(a[k], b[k]) for k in a) else False
@@ -117,6 +119,14 @@ class DC2:
     inner: Optional[DC] = None
 
 
+@dataclasses.dataclass(frozen=True)
+class DCF:
+    """Hashable, compared by key only: two instances can be equal and still carry different content."""
+
+    key: int
+    payload: str = dataclasses.field(default="", compare=False)
+
+
 def _make_payload(t: Any) -> Any:
     class Payload(pydantic.BaseModel):
         value: t  # type: ignore[valid-type]
@@ -146,7 +156,7 @@ ANNOTS: Dict[str, Any] = {
     "Union[bool, int, float]": Union[bool, int, float], "Union[int, str]": Union[int, str],
     "none": None, "Any": Any, "int": int, "str": str, "float": float, "bool": bool,
     "List[int]": List[int], "Optional[int]": Optional[int], "Dict[str, int]": Dict[str, int],
-    "Model": Model, "Inner": Inner, "DC": DC, "DC2": DC2, "Optional[Model]": Optional[Model],
+    "Model": Model, "Inner": Inner, "DC": DC, "DC2": DC2, "DCF": DCF, "Optional[Model]": Optional[Model],
     "List[Model]": List[Model],
 }
 
@@ -182,7 +192,7 @@ def enc(v: Any) -> Any:
 def dec(v: Any) -> Any:
     if isinstance(v, dict):
         if "$inst" in v:
-            cls = {"Model": Model, "Inner": Inner, "DC": DC, "DC2": DC2}[v["$inst"]]
+            cls = {"Model": Model, "Inner": Inner, "DC": DC, "DC2": DC2, "DCF": DCF}[v["$inst"]]
             return cls(**{k: dec(x) for k, x in v["kw"].items()})
         return {k: dec(x) for k, x in v.items()}
     if isinstance(v, list):
@@ -206,6 +216,8 @@ def _gen_value_for(rng: random.Random, ann: str) -> Any:
             return DC(a=rng.randint(0, 9), b="q")
         if c < 0.3:
             return DC2(items=[1, 2], inner=DC(a=1))
+        if c < 0.33:
+            return DCF(key=rng.choice([1, True, 2]), payload=rng.choice(["first", "second", "third"]))
         if c < 0.35:
             return Inner(v=1.5, m=Model(x=1))
         return gen_json_tree(rng)
@@ -231,6 +243,9 @@ def _gen_value_for(rng: random.Random, ann: str) -> Any:
                            {"v": "bad"}, {"m": None}, 7])
     if ann == "DC":
         return rng.choice([DC(a=1), DC(a=2, b="ü"), {"a": 3}, {"a": "4", "b": "x"}, {"a": "bad"}, {"b": "only"}, 5, []])
+    if ann == "DCF":
+        return rng.choice([DCF(key=1, payload="first"), DCF(key=1, payload="second"), DCF(key=True, payload="third"), DCF(key=2),
+                           {"key": "1", "payload": "p"}, {"key": "x"}, 4])
     if ann == "DC2":
         return rng.choice([DC2(items=[1]), DC2(items=[], inner=DC(a=1)), {"items": ["1", 2]}, {"items": "x"},
                            {"items": [1], "inner": {"a": 2}}, 3])
@@ -347,7 +362,7 @@ def _dep_int() -> int:
 
 def build_fn(case: Dict[str, Any]) -> Any:
     ns: Dict[str, Any] = {"Any": Any, "List": List, "Optional": Optional, "Dict": Dict, "Union": Union, "Model": Model,
-                          "Inner": Inner, "DC": DC, "DC2": DC2, "Context": Context, "PayloadI": PayloadI,
+                          "Inner": Inner, "DC": DC, "DC2": DC2, "DCF": DCF, "Context": Context, "PayloadI": PayloadI,
                           "PayloadS": PayloadS, "PayloadL": PayloadL, "RowI": RowI, "RowS": RowS, "TaskiqDepends": TaskiqDepends,
                           "_REC": _REC, "_dep_plain": _dep_plain, "_dep_int": _dep_int, "int": int, "str": str, "float": float, "bool": bool}
     parts = []
